@@ -1,6 +1,6 @@
 PROPERTY = 'C22'
 LEVEL = 'proof'
-VERUS = ['verus/C22.rs']
+VERUS = ['verus/C22.rs', 'verus/C22_ops.rs']
 TRUSTED = [
     'Verus 0.2026.09.13 + bundled Z3; vstd (u64/u128 checked ops, u128::from(u64), `&mut`-returning accessor with final()); the num_traits-shaped prelude for the model-generic units (Num = u128 as N)',
     'carrier RM for `RevertibleMarket` and for `Self` of ValidateMarketBalances / BaseMarketExt / Bank: market{meta, pure}, other()/other_mut() = the recorded balances (OtherState field list compared with the repo each run, R11), the five pools the validation reads (liquidity, swap impact, claimable fee, the two collateral-sum pools) as fallible two-sided amounts; MarketMeta carrier compared each run; Pubkey as two u128 words',
@@ -8,14 +8,14 @@ TRUSTED = [
     'rules R5f (error payload with two formatted values dropped), R16 (msg!/debug_msg! logs dropped), R16c (`#[cfg(feature = "debug-msg")] let ..;` dropped), R6 (require*!): logged per use',
 ]
 UNVERIFIED = [
-    '"AFTER EVERY SUCCESSFUL STORE INSTRUCTION" IS NOT PROVED: this check proves what a successful validation GUARANTEES (recorded balance minus the excluded amounts covers liquidity + swap impact + claimable fees, and separately the total collateral, for both pool tokens; both halves for a single-token market) and how the recorded balances MOVE (record_transferred_in/out change exactly one side by exactly the amount, never below zero, failure changes nothing). That every instruction which moves vault tokens records the movement and ends with a validation is located by text (call sites counted per file on every run: instructions/market.rs, ops/market.rs, ops/order.rs, revertible/swap_market.rs), not proved',
+    '"AFTER EVERY SUCCESSFUL STORE INSTRUCTION" IS NOT PROVED: this check proves what a successful validation GUARANTEES (recorded balance minus the excluded amounts covers liquidity + swap impact + claimable fees, and separately the total collateral, for both pool tokens; both halves for a single-token market) and how the recorded balances MOVE (record_transferred_in/out change exactly one side by exactly the amount, never below zero, failure changes nothing). That every instruction which moves vault tokens records the movement and ends with a validation is located by text (call sites counted per file on every run: instructions/market.rs, ops/market.rs, ops/order.rs, revertible/swap_market.rs), not proved - EXCEPT for the two liquidity operations: the deposit and withdrawal blocks of ops/market.rs are under contract as BLOCK units (verus/C22_ops.rs): after the model action the balances are validated on the very market state the operation goes on with, excluding nothing for a deposit and exactly the two outgoing amounts for a withdrawal; the model action chain is one assumed call there',
     'the shared-vault clause (recorded balances of all markets sharing a vault never exceed the vault token balance) is an induction over token transfers performed by CPI; only its per-step arithmetic is stated (lemma_shared_vault_step_in/out); the actual token accounts are outside any contract here',
     'the implementation of the pool accessors (RevertibleMarket::pool(kind) through the revertible buffer: C21 material) and of Market::is_pure (flag set from long == short at creation: the invariant rm_wf is a precondition of validate_market_balances)',
     'native run of the three validation methods: their TEXT (verbatim) on plain-Rust carriers over a small domain (balances 0..5 / 0..3, reserved 0..2, collateral {0,2}/{0,1}, three tokens, amounts 0..3, both purities): a bounded search used only to find a failing input / as fallback when a method leaves the Verus subset; never counted as discharged. The other units have no native replay',
 ]
 ASSUMPTIONS = ['rm_wf: the market\'s pure flag equals (long token mint == short token mint) (set at market creation; C17 material)']
 MANIFEST = dict(engine='verus',
-    technique='Verus contracts on ValidateMarketBalances::{validate_market_balance_for_the_given_token, validate_market_balances, validate_market_balances_excluding_the_given_token_amounts (array-literal loop through rule R21)}, RevertibleMarket::{balance_for_token, record_transferred_in, record_transferred_out} and its Bank impl, Bank::balance_excluding, BaseMarketExt::{expected_min_token_balance_..., total_collateral_amount_for_one_token_side} and MarketMeta::to_token_side, extracted from /repo each run onto one carrier',
+    technique='(call sites: block units on the deposit / withdrawal blocks of ops/market.rs) Verus contracts on ValidateMarketBalances::{validate_market_balance_for_the_given_token, validate_market_balances, validate_market_balances_excluding_the_given_token_amounts (array-literal loop through rule R21)}, RevertibleMarket::{balance_for_token, record_transferred_in, record_transferred_out} and its Bank impl, Bank::balance_excluding, BaseMarketExt::{expected_min_token_balance_..., total_collateral_amount_for_one_token_side} and MarketMeta::to_token_side, extracted from /repo each run onto one carrier',
     text='PARTIAL (the enforcement functions; not the per-instruction wiring). Deductive proof, unbounded over all recorded balances (u64), pool amounts (u128), excluded amounts, tokens and both market purities: a successful validate_market_balances (and validate_market_balances_excluding_the_given_token_amounts, which sets BOTH given amounts aside, each on the side of its token, and rejects a non-zero amount of a non-pool token) means that for each pool token the recorded balance minus the excluded amount covers liquidity + swap impact + claimable fee amounts and, separately, the total position collateral (a single-token market: the sum of both halves against the one recorded balance, with the two excluded amounts added once); record_transferred_in/out and their by-token forms move exactly the recorded balance of that token side by exactly the amount (a single-token market keeps everything on the long side), a transfer out larger than the recorded balance fails, and a failed call changes nothing.',
     note='Partial claim: "after every instruction" and the shared-vault sum are listed as unverified (call sites located by text).')
 
@@ -42,7 +42,7 @@ FALLBACK_OBS = ['C22.validate_market_balances_excluding_the_given_token_amounts'
 
 def extra(res, repo, tier, seed):
     import os, re
-    want = {'programs/store/src/instructions/market.rs': 1, 'programs/store/src/ops/market.rs': 2, 'programs/store/src/ops/order.rs': 3,
+    want = {'programs/store/src/instructions/market.rs': 1, 'programs/store/src/ops/order.rs': 3,
             'programs/store/src/states/market/revertible/swap_market.rs': 9}
     for f, n in want.items():
         s = open(os.path.join(repo, f)).read()
